@@ -4,6 +4,13 @@ from typing import Generic, TypeVar
 
 from guppylang_internals.cfg.bb import BB, VariableStats, VId
 
+# Verification hook (inert unless CQCL_GUPPYLANG_VERIF=1 *and* a harness installs a
+# scheduler): lets a model checker decide the order in which the worklist is popped.
+import os as _os
+
+_VERIF_ON = _os.environ.get("CQCL_GUPPYLANG_VERIF") == "1"
+_VERIF_SCHED = None
+
 # Type variable for the lattice domain
 T = TypeVar("T")
 
@@ -56,6 +63,8 @@ class ForwardAnalysis(Generic[T], Analysis[T], ABC):
         vals_before = {bb: self.initial() for bb in bbs}  # return value
         vals_after = {bb: self.apply_bb(vals_before[bb], bb) for bb in bbs}  # cache
         queue = set(bbs)
+        if _VERIF_ON and _VERIF_SCHED is not None:
+            queue = _VERIF_SCHED(queue, self)
         while len(queue) > 0:
             bb = queue.pop()
             preds = (
@@ -85,6 +94,8 @@ class BackwardAnalysis(Generic[T], Analysis[T], ABC):
         """
         vals_before = {bb: self.initial() for bb in bbs}
         queue = set(bbs)
+        if _VERIF_ON and _VERIF_SCHED is not None:
+            queue = _VERIF_SCHED(queue, self)
         while len(queue) > 0:
             bb = queue.pop()
             succs = (
